@@ -683,6 +683,8 @@ class Ex:
             return a.ci is b.ci
         if isinstance(a, VLib) and isinstance(b, VLib):
             return a.name == b.name
+        if isinstance(a, VOpaque) and isinstance(b, VOpaque) and a is b:
+            return True                 # one boundary object reached along two ways
         if isinstance(a, VOpaque) and isinstance(b, VOpaque) and a.t is not None and b.t is not None:
             return a.t == b.t
         if type(a) is not type(b):
